@@ -72,6 +72,12 @@ class Puppet:
             return ['%s.alt:%d' % (self.node['host'], self.port), self.nick, [self.node['ip'], self.port]]
         if claim == 'mismatch':
             return [self.identifier, self.nick, ['10.9.9.9', self.port]]
+        if claim == 'newnick':
+            # same host:port, another nick identifier (the peer restarted under another Supervisor identifier)
+            return [self.identifier, '%s_bis' % self.nick, [self.node['ip'], self.port]]
+        if claim == 'nickmoved':
+            # same nick identifier, another host:port
+            return ['%s:%d' % (self.node['host'], self.port + 100), self.nick, [self.node['ip'], self.port + 100]]
         sim = self.sim
         spec = next(s for s in sim.config['instances'] if s['nick'] == claim)
         node = sim.nodes[spec['node']]
